@@ -213,38 +213,38 @@ func listenerScenario(id string, seed int64, lt *layoutTables, cycles int, recs 
 
 // stubEvents: the handler fed (scripted transport) from ONE reused, scribbled-over buffer; one record per delivered status
 func stubEvents(w *shardWriter, evs [][]byte, class string) {
-		ul, dl := stubClient(clientCfg{Listen: "127.0.0.1:60001"})
-		dl.events = evs
-		l := &evListener{log: &evlog{}}
-		q := make(chan os.Signal, 1)
-		done := make(chan error, 1)
-		go func() { done <- ul.Listen(l, q) }()
-		t1 := time.Now()
-		for int(atomic.LoadInt32(&l.callbacks)) < len(evs) && time.Since(t1) < 5*time.Second {
-			time.Sleep(time.Millisecond)
-		}
-		q <- os.Interrupt
-		select {
-		case <-done:
-		case <-time.After(3 * time.Second):
-		}
-		time.Sleep(5 * time.Millisecond)
-		byTag := map[uint32][]byte{}
-		for _, b := range evs {
-			if len(b) == 64 {
-				byTag[binary.LittleEndian.Uint32(b[40:44])] = b
-			}
-		}
-		l.mu.Lock()
-		for _, d := range l.delivered {
-			var later M
-			if pn, msg := guard(func() { later = projStatus(d.s) }); pn {
-				later = M{"t": "panic", "msg": msg}
-			}
-			w.put(M{"op": "Event", "b": ints(byTag[d.tag]), "status": d.at, "later": later, "rig": "S"}, class, "")
-		}
-		l.mu.Unlock()
+	ul, dl := stubClient(clientCfg{Listen: "127.0.0.1:60001"})
+	dl.events = evs
+	l := &evListener{log: &evlog{}}
+	q := make(chan os.Signal, 1)
+	done := make(chan error, 1)
+	go func() { done <- ul.Listen(l, q) }()
+	t1 := time.Now()
+	for int(atomic.LoadInt32(&l.callbacks)) < len(evs) && time.Since(t1) < 5*time.Second {
+		time.Sleep(time.Millisecond)
 	}
+	q <- os.Interrupt
+	select {
+	case <-done:
+	case <-time.After(3 * time.Second):
+	}
+	time.Sleep(5 * time.Millisecond)
+	byTag := map[uint32][]byte{}
+	for _, b := range evs {
+		if len(b) == 64 {
+			byTag[binary.LittleEndian.Uint32(b[40:44])] = b
+		}
+	}
+	l.mu.Lock()
+	for _, d := range l.delivered {
+		var later M
+		if pn, msg := guard(func() { later = projStatus(d.s) }); pn {
+			later = M{"t": "panic", "msg": msg}
+		}
+		w.put(M{"op": "Event", "b": ints(byTag[d.tag]), "status": d.at, "later": later, "rig": "S"}, class, "")
+	}
+	l.mu.Unlock()
+}
 
 func runC10(o *opts) (*summary, error) {
 	lt, err := loadLayouts(o.extraArg("layouts"))
